@@ -5,6 +5,8 @@ tests.  Postconditions of `next` and of the driver come from the property text: 
 (decreases), non-empty tokens, concatenation == input, quoted spans per `quoted_end`.
 """
 from vlib.gen import make_r_fmt, make_r_sub, r_mutself
+from vlib import rustlex as rl
+import re
 
 F = "src/token.rs"
 r_fmt = make_r_fmt(wmap=lambda w: "&mut " + w)
@@ -29,8 +31,8 @@ fn vstr_chars_collect(s: &str) -> (v: Vec<char>)
     ensures v@ == s@
 { s.chars().collect() }
 
-pub open spec fn s_is_space(c: char) -> bool { c == ' ' || c == '\t' || c == '\r' || c == '\n' }
-pub open spec fn s_is_ident(c: char) -> bool { c == '_' || c == '$' }
+// s_is_space / s_is_ident: GENERATED below from the `matches!(c, ..)` patterns of is_space / is_identifier in /repo (C16 holds for
+// whatever these two classes are: a change of class is followed, not flagged; C11 pins the identifier class separately)
 pub open spec fn s_is_alnum(c: char) -> bool { spec_is_alphabetic(c) || ('0' <= c && c <= '9') }
 pub open spec fn s_delim_start(c: char) -> bool { c == '`' || c == '[' || c == '\'' || c == '"' }
 pub open spec fn s_escape_for(start: char, c: char) -> bool {
@@ -199,6 +201,17 @@ pub proof fn lemma_spans_ordered(chars: Seq<char>, toks: Seq<Token>, b: Seq<int>
 SCAN_FRAME = "final(self).wf(), final(self).chars == old(self).chars,"
 
 
+def class_spec(u, fn_name, spec_name):
+    """the character class a `fn f(c: char) -> bool { matches!(c, 'a' | 'b' ..) }` accepts, as a spec function (GENERATED)"""
+    src = u.src(F)
+    it = rl.find_fn(F, src, rl.find_block(F, src, "impl Tokenizer")[0], fn_name)
+    m = re.search(r"matches!\(\s*c\s*,\s*((?:'(?:\\.|[^'\\])'\s*\|?\s*)+)\)", it.text)
+    if not m:
+        raise rl.LostAnchor("%s: body is not `matches!(c, 'x' | ..)`" % fn_name)
+    chars = re.findall(r"'(?:\\.|[^'\\])'", m.group(1))
+    return "pub open spec fn %s(c: char) -> bool { %s }\n" % (spec_name, " || ".join("c == %s" % ch for ch in chars))
+
+
 def build(u):
     P = ["C16", "C11"]
     u.emit("use vstd::prelude::*;\nverus! {\n")
@@ -207,6 +220,13 @@ def build(u):
     u.type_item(F, "struct", "Tokenizer", props=P)
     u.type_item(F, "enum", "Token", props=P)
     u.spec(SPEC, "token::spec", props=P)
+    u.spec(class_spec(u, "is_space", "s_is_space") + class_spec(u, "is_identifier", "s_is_ident"), "token::classes(GENERATED from the patterns in /repo)", props=P)
+    u.spec("""// C11: a `$n` placeholder is `$` followed by a NUMBER token; a number ends at the first character that is neither alphanumeric nor an
+// identifier character, so the identifier characters beyond letters and digits must stay `_` and `$` (operators such as @> #>> may follow a placeholder)
+pub proof fn lemma_c11_identifier_class()
+    ensures forall|c: char| #[trigger] s_is_ident(c) ==> c == '_' || c == '$'
+{}
+""", "lemma_c11_identifier_class", props=["C11"])
 
     u.emit("impl Tokenizer {\n    pub open spec fn wf(&self) -> bool { self.p <= self.chars.len() }\n")
     B = "impl Tokenizer"
